@@ -899,6 +899,13 @@ func c05AddSet(c *Ctx) {
 					if b, ok := ast.Unparen(e.Cond).(*ast.BinaryExpr); ok && b.Op == token.EQL && (helper.objOf(b.X) == valueP || helper.objOf(b.Y) == valueP) {
 						dup = true
 					}
+					// a call of a membership predicate with (node.values, value)
+					if call, ok := ast.Unparen(e.Cond).(*ast.CallExpr); ok && len(call.Args) == 2 {
+						if f, ok := typeutilCallee(fi.Pkg.TypesInfo, call).(*types.Func); ok && c.isMembershipPredicate(f) &&
+							helper.objOf(call.Args[0]) == types.Object(values) && helper.objOf(call.Args[1]) == types.Object(valueP) {
+							dup = true
+						}
+					}
 				}
 			}
 			if dup && w >= 0 {
@@ -927,4 +934,62 @@ var _ = ssa.BuilderMode(0)
 func c04CollectGuard(c *Ctx) {
 	c04Table(c, "C14/MATCH", "topic.(*Tree).match", matchRef, map[string]bool{"segment=+": true, "segment=#": true})
 	c04Table(c, "C14/SEARCH", "topic.(*Tree).search", searchRef, nil)
+}
+
+// isMembershipPredicate: f(list, value) bool returns true exactly on the paths on which an element of list compared
+// equal to value (decided on f's own traces).
+func (c *Ctx) isMembershipPredicate(f *types.Func) bool {
+	fi := c.P.ByObj[f]
+	if fi == nil || fi.Decl.Body == nil {
+		return false
+	}
+	sig := f.Type().(*types.Signature)
+	if sig.Params().Len() != 2 || sig.Results().Len() != 1 {
+		return false
+	}
+	if _, ok := sig.Params().At(0).Type().Underlying().(*types.Slice); !ok {
+		return false
+	}
+	listP, valueP := sig.Params().At(0), sig.Params().At(1)
+	h := &Interp{P: c.P, Info: fi.Pkg.TypesInfo}
+	in := c.P.TraceFunc(fi, TraceOpts{})
+	if in.Over || len(in.Traces) == 0 {
+		return false
+	}
+	nTrue := 0
+	for _, t := range in.Traces {
+		if t.Exit != ExitReturn || len(t.RVals) != 1 || t.RVals[0].K != VBool {
+			return false
+		}
+		found := false
+		for i, e := range t.Ev {
+			if e.Kind != EvCond || !e.Outcome {
+				continue
+			}
+			b, ok := ast.Unparen(e.Cond).(*ast.BinaryExpr)
+			if !ok || b.Op != token.EQL {
+				continue
+			}
+			x, y := h.objOf(b.X), h.objOf(b.Y)
+			if y != types.Object(valueP) {
+				x, y = y, x
+			}
+			if y != types.Object(valueP) || x == nil {
+				continue
+			}
+			// x is the element variable of a range over the list parameter
+			for _, l := range t.loopsAt(i) {
+				if rs, ok := l.(*ast.RangeStmt); ok && h.objOf(rs.X) == types.Object(listP) && rs.Value != nil && h.objOf(rs.Value) == x {
+					found = true
+				}
+			}
+		}
+		if t.RVals[0].B != found {
+			return false
+		}
+		if found {
+			nTrue++
+		}
+	}
+	return nTrue > 0
 }
